@@ -57,13 +57,13 @@ struct Model
     {
         const long long now = g_now_ms.load();
         if (k.op == "ins" && r.ret && caps.ttl_cache)
-            D[k.k] = {now + (caps.entry_ttl ? k.d : cur_ttl)};
+            D[k.k] = {now + kTicksPerTtlUnit * (caps.entry_ttl ? k.d : cur_ttl)};
         else if (k.op == "insr" && caps.ttl_cache)
             for (auto& e : k.kv)
             {
                 if (k.a == 3)
                     D[e.k].clear();
-                D[e.k].insert(now + (caps.entry_ttl ? e.d : cur_ttl));
+                D[e.k].insert(now + kTicksPerTtlUnit * (caps.entry_ttl ? e.d : cur_ttl));
             }
         else if (k.op == "era")
             D[k.k].clear();
@@ -125,9 +125,14 @@ struct Model
 
 std::string call_json(const Call& k)
 {
+    // ttl arguments are logged in clock ticks (the specification's unit); a tick step already is
+    const long long sc = k.op == "tick" ? 1 : kTicksPerTtlUnit;
+    std::vector<KV>  kv = k.kv;
+    for (auto& e : kv)
+        e.d = static_cast<int>(e.d * sc);
     std::ostringstream s;
-    s << "\"op\":\"" << k.op << "\",\"k\":" << k.k << ",\"v\":" << k.v << ",\"a\":" << k.a << ",\"d\":" << k.d
-      << ",\"p\":" << k.p << ",\"var\":" << k.var << ",\"kv\":" << json_kv(k.kv);
+    s << "\"op\":\"" << k.op << "\",\"k\":" << k.k << ",\"v\":" << k.v << ",\"a\":" << k.a << ",\"d\":" << k.d * sc
+      << ",\"p\":" << k.p << ",\"var\":" << k.var << ",\"kv\":" << json_kv(kv);
     return s.str();
 }
 std::string res_json(const Result& r)
@@ -152,8 +157,9 @@ std::string cfg_json(const Cfg& g, const std::string& kind, int ts, int mlf100)
 {
     std::ostringstream s;
     s << "{\"e\":\"cfg\",\"kind\":\"" << kind << "\",\"cap\":" << g.cap << ",\"ts\":" << ts << ",\"mlf\":" << mlf100
-      << ",\"ttl\":" << g.ttl << ",\"tick\":" << g.tick << ",\"rnum\":" << g.rnum << ",\"rsh\":" << g.rsh
-      << ",\"fl\":" << g.flavour << ",\"keys\":" << g.keys << ",\"now\":" << g_now_ms.load() << "}";
+      << ",\"ttl\":" << g.ttl * kTicksPerTtlUnit << ",\"tick\":" << g.tick * kTicksPerTtlUnit << ",\"rnum\":" << g.rnum
+      << ",\"rsh\":" << g.rsh << ",\"fl\":" << g.flavour << ",\"keys\":" << g.keys << ",\"now\":" << g_now_ms.load()
+      << ",\"us\":" << g.us << "}";
     return s.str();
 }
 
